@@ -60,6 +60,9 @@ constexpr auto exp_check(T const x) noexcept -> T
         : is_neginf(x)                               ? T(0)
         : etl::numeric_limits<T>::epsilon() > abs(x) ? T(1)
         : is_posinf(x)                               ? etl::numeric_limits<T>::infinity()
+                                                     // beyond the range of every format (also keeps find_whole inside llint_t)
+        : x > T(12000)                               ? etl::numeric_limits<T>::infinity()
+        : x < T(-12000)                              ? T(0)
         : abs(x) < T(2)                              ? exp_cf(x)
                                                      : exp_split(x)
     );
